@@ -5,7 +5,9 @@ E1: complete enumeration of finite placement lattices, executed on the real
 pixels: every destination pixel centre is mapped to the source pixel plane by the harness' own
 composition of the two affines (and, across CRSs, a pyproj.Transformer built from EPSG codes inside
 the harness, never taken from odc-geo's caches); a centre that lands inside the source image must be
-inside ``roi_dst`` and its source location inside ``roi_src``.  The structural clauses (regions inside
+inside ``roi_dst`` and its source location inside ``roi_src`` (slices B-sliver / B-ratio, rasters of several
+thousand pixels: all destination pixels inside the bounding box of the source image's boundary, which contains every
+pixel that can need data).  The structural clauses (regions inside
 their images, emptiness when separated by more than the padding, scale / scale2 / read_shrink) are
 judged from the construction parameters.
 """
@@ -1365,9 +1367,9 @@ def gen_sliver(thorough):
                     for edge in edges:
                         for t32 in ts:
                             for depth in (-3.0, 1.1, 2.3, 3.8, 6.2):
-                                for direction in ("C-dst", "C-src"):
-                                    for psize, kpx, pad, al in (("large", 0.5, None, None), ("small", 0.5, 0, None)):
-                                        yield (cfg, cside, edge, t32, mode, kpx, psize, depth, direction, pad, al)
+                                for direction, psize, kpx, pad, al in (("C-dst", "large", 0.5, None, None), ("C-dst", "small", 0.5, 0, None),
+                                                                       ("C-src", "small", 0.5, None, None)):
+                                    yield (cfg, cside, edge, t32, mode, kpx, psize, depth, direction, pad, al)
 
 
 def run_sliver(case):
@@ -1883,7 +1885,13 @@ def main(ctx):
               "options": list(OPTS_L), "quick_2000x2000_relations": REL_L_QUICK_SQUARE},
         "H": {"pairs": {k: list(v) for k, v in PAIRS_H.items()}, "interfering_calls": list(CALLS_H), "max_sequence": "2 (quick) / 3 (thorough)",
               "other_pair": list(OTHER_H)},
-        "max_raster": "2100x2100 (L); 48x48 (A, B); 48x96 geographic / 72x72 projected (G)", "eps_px": EPS,
+        "sliver": {"configs": {k: list(v) for k, v in CFG_S.items()}, "curved_raster": C_SHAPE, "other_raster": P_SHAPES,
+                   "depth_px": DEPTHS_S, "apex_position_32nds": "1..31 (quick: %s)" % (T32_QUICK,), "edges": EDGES,
+                   "other_pixel_in_curved_pixels": (0.5, 2.0), "padding_align": "(None,None),(0,None) (+ (2,None),(None,16) thorough)"},
+        "ratio": {"configs": {k: list(v) for k, v in CFG_R.items()}, "coarse_raster": K_SHAPE, "pixel_ratios": list(RATIOS),
+                  "fine_raster": f"band of +-{F_MARGIN} px around the curved edge, at most {F_MAX_ROWS} rows, up to ~7500 columns",
+                  "apex_position_32nds": "1..31 (1/17: even ones; quick: subsets of %s)" % (T32_QUICK,)},
+        "max_raster": "2100x2100 (L); 2000x3000 (sliver); 1500x7500 (ratio); 48x48 (A, B); 48x96 geographic / 72x72 projected (G)", "eps_px": EPS,
     }
     ctx.assumptions = [
         "a pyproj.Transformer built in the harness from EPSG codes (always_xy) is the reference for CRS maths",
@@ -1899,6 +1907,10 @@ def main(ctx):
         "harness tolerances are in pixel units (1e-6 px for locations and transform.back, 1e-9 relative for linear scale), never "
         "scaled by the coordinate magnitude; the harness subtracts the affine origin before dividing by the pixel size, so with the "
         "smallest pixel enumerated (4.5e-6 deg at 147 deg) its own rounding is ~1e-8 px",
+        "slices B-sliver / B-ratio judge the destination pixels inside the bounding box (+2 px) of the source image's boundary "
+        "(one sample per source pixel, harness transformer) in the destination pixel plane: the image of the source rectangle under "
+        "the continuous one-to-one map is bounded by the image of its boundary, so no other destination centre can map inside the "
+        "source; the emptiness clause uses the envelope of the destination boundary sampled once per pixel (margin 0.01 px)",
         "control-point rasters are generated from an exact affine so that the harness mapping does not depend on the library's "
         "polynomial fit; non-affine GCP sets are not enumerated",
         "histories (slice H): a plan computed twice in one case with interfering public calls in between must be identical "
